@@ -170,6 +170,10 @@ impl Model {
 
         let rays = ray_origins.iter().map(|origin| Ray::new(*origin, *ray_dir));
         let num_rays = rays.len();
+        // Sin puntos de muestreo (hueco sin posición definida) se considera soleado al 100%
+        if num_rays == 0 {
+            return 1.0;
+        }
         let mut num_intersects = 0;
 
         let bvh = BVH::build(candidate_occluders, 30);
